@@ -195,5 +195,12 @@ def main_wrapper(pid, fn, safety_net=None):
         except Exception as e:
             traceback.print_exc()
             chk.note_inconclusive("safety-net battery failed to run: %r" % (e,))
+    if os.environ.get("VERIF_COVDUMP"):
+        from props.common import uncovered_blocks
+        from sym import ir
+        try:
+            chk.extra["uncovered_blocks_debug"] = {k: v for k, v in uncovered_blocks(chk._prog).items()}
+        except Exception as e:
+            chk.extra["uncovered_blocks_debug"] = repr(e)
     rc = chk.finish()
     sys.exit(rc)
